@@ -6,6 +6,7 @@ import (
 	"fmt"
 	"regexp"
 	"strconv"
+	"strings"
 	"testing"
 
 	"github.com/alttpo/snes/asm"
@@ -20,6 +21,10 @@ import (
 type c06Case struct {
 	Listing bool        `json:"listing"`
 	Ops     []asmcat.Op `json:"ops"`
+	// Tight: the target buffer is exactly as long as the program
+	Tight bool `json:"tight,omitempty"`
+	// EarlyAt > 0: Finalize is also called before op EarlyAt (the program is continued afterwards)
+	EarlyAt int `json:"early_at,omitempty"`
 }
 
 var (
@@ -69,7 +74,7 @@ func c06Finalize(p *emPair, round int) error {
 		if !ok {
 			return fmt.Errorf("Finalize #%d reports %q but no relative branch has that origin, target and distance (out of range: %+v)", round, msg, out.TooFar)
 		}
-	} else {
+	} else if !c06Names(msg, p, out) {
 		return fmt.Errorf("Finalize #%d failed with an error that names neither an unresolved label nor an out-of-range branch: %q", round, msg)
 	}
 	// nothing but operand bytes of label references may have changed; each holds the placeholder or the correct patch
@@ -108,6 +113,31 @@ func c06Finalize(p *emPair, round int) error {
 	return nil
 }
 
+// c06Names is the tolerant reading of "an error naming an unresolved or out-of-range reference" for messages that
+// do not have today's wording: the text must mention an undefined label that is referenced, or an out-of-range
+// branch by its label, its own address or its target address (hex, any case, with or without prefix).
+func c06Names(msg string, p *emPair, out asmcat.FinalizeOutcome) bool {
+	low := strings.ToLower(msg)
+	for l := range out.Missing {
+		if strings.Contains(msg, l) {
+			return true
+		}
+	}
+	for _, r := range out.TooFar {
+		if strings.Contains(msg, r.Label) {
+			return true
+		}
+		for _, a := range []uint32{r.OpAddr, r.OpAddr + 1, r.Ins, p.m.Labels[r.Label]} {
+			for _, f := range []string{"%x", "%04x", "%06x"} {
+				if strings.Contains(low, fmt.Sprintf(f, a)) {
+					return true
+				}
+			}
+		}
+	}
+	return false
+}
+
 func keys(m map[string]bool) []string {
 	var k []string
 	for s := range m {
@@ -118,8 +148,20 @@ func keys(m map[string]bool) []string {
 
 func c06Check(c c06Case) error {
 	capacity := needOf(c.Ops) + 8
+	if c.Tight {
+		capacity -= 8
+	}
 	p := &emPair{em: asm.NewEmitter(make([]byte, capacity), c.Listing), m: asmcat.NewModel(capacity, false, c.Listing)}
 	for i, o := range c.Ops {
+		if c.EarlyAt > 0 && i == c.EarlyAt {
+			// an early Finalize: resolves what can be resolved so far; the program is then continued
+			if err := c06Finalize(p, 0); err != nil {
+				return fmt.Errorf("(early, before op %d) %v", i, err)
+			}
+			if err := p.checkLabels(); err != nil {
+				return fmt.Errorf("after the early Finalize: %v", err)
+			}
+		}
 		if err := p.step(i, o); err != nil {
 			return err
 		}
@@ -159,13 +201,21 @@ func init() {
 func TestC06(t *testing.T) {
 	rig.Main(t, "C06", "rapid emitter histories (instructions, data, labels from a pool of 8, forward/backward/multiple/missing references, absolute jumps, duplicate label definitions, "+
 		"optional base address set first, program within one bank) with branch distances solved to -129/-128/-127 and +126/+127/+128, run on a real emitter and on an executable model; "+
-		"Finalize's verdict, every patched byte, the error message and the set of bytes a failing Finalize may touch are compared, and Finalize is called twice.  Non-trivial = the history "+
+		"Finalize's verdict, every patched byte, the error message and the set of bytes a failing Finalize may touch are compared, and Finalize is called twice at the end and, in a third of the cases, also at a drawn earlier point after which the program continues; the buffer is exactly as long as the program in a quarter of the cases.  Non-trivial = the history "+
 		"contains a label reference; distinct = hash(case).",
 		func(r *rig.Run) {
 			ev := r.Ev
 			r.Rapid("rapid", rig.Pick(40000, 150000), func(t *rapid.T) {
 				c := c06Case{Listing: rapid.Bool().Draw(t, "listing")}
 				c.Ops = asmcat.GenHistory(t, asmcat.GenOpts{MaxOps: rig.Pick(40, 120), Labels: true, Data: true, Comments: true, SetBase: true, Assume: true})
+				c.Tight = rapid.IntRange(0, 3).Draw(t, "tight") == 0
+				if len(c.Ops) > 2 && rapid.IntRange(0, 2).Draw(t, "early-finalize") == 0 {
+					c.EarlyAt = rapid.IntRange(1, len(c.Ops)-1).Draw(t, "early-at")
+					ev.Class("finalize/also-called-early-then-continued")
+				}
+				if c.Tight {
+					ev.Class("buffer-exactly-as-long-as-the-program")
+				}
 				r.Check(t, "rapid", c, func() error { return c06Check(c) })
 				// classify with the model
 				m := asmcat.NewModel(1<<30, false, false)
